@@ -116,6 +116,7 @@ type Gen struct {
 	sliceKeep    map[ssa.Instruction]bool
 	keySt        *State
 	curLoop      *loopInfo
+	callCount    map[string]int
 	ownLocsDone  bool
 	ownLocsCache []modLoc
 	inFrameEval  bool
